@@ -287,6 +287,11 @@ func historyString(evs []*event) string {
 
 var raceLog string
 
+// zombies: a deadlocked or hung execution leaves its threads parked for ever; the race detector then sees the next
+// executions' set-up writes as unordered with those threads' earlier accesses. Race reports after such an execution
+// are artefacts of the abandonment (the deadlock itself is reported) and are not attributed to the code under test.
+var zombies bool
+
 func raceLogSize() int64 {
 	if raceLog == "" {
 		return 0
@@ -382,10 +387,12 @@ func exploreHarness(c *runner.Ctx, h harness, bound int, race bool, linCache map
 	ex.Check = func(x *vsched.Exec) bool {
 		ok := true
 		if x.Hang {
+			zombies = true
 			report("hang", x, "a thread did not reach its next scheduling point within the watchdog")
 			return false
 		}
 		if x.Deadlock {
+			zombies = true
 			report("deadlock", x, strings.Join(x.Blocked, "; "))
 			return false
 		}
@@ -470,9 +477,11 @@ func exploreHarness(c *runner.Ctx, h harness, bound int, race bool, linCache map
 		os.Exit(3)
 	}
 	if race {
-		if after := raceLogSize(); after > before {
+		if after := raceLogSize(); after > before && !zombies {
 			rep := raceReportFrom(before)
 			c.Violation("data-race:"+raceSig(rep), map[string]interface{}{"harness": h.String(), "bound": bound, "report": rep})
+		} else if after > before {
+			c.Note("race reports after a deadlocked/hung execution in the same worker were not attributed (abandoned threads)")
 		}
 	}
 	if res.Capped {
